@@ -11,8 +11,10 @@ Ops are those of harness/impl/narrow.py (same names, same result fields) plus
   center     {"fn": "center", "which": 1|2}             -> {"p": collider.center()}
 """
 import json
+import os
 import signal
 import sys
+import threading
 import time
 import traceback
 
@@ -104,9 +106,22 @@ def run_op(op, c1, c2):
     return out
 
 
+_progress = dict(t=time.time(), budget=60.0)
+
+
+def _watchdog():
+    """compiled (njit) loops cannot be interrupted by SIGALRM: if one op overruns its budget by
+    10 s the whole worker exits with code 3; the parent then re-runs the cases one by one"""
+    while True:
+        time.sleep(1.0)
+        if time.time() - _progress["t"] > _progress["budget"] + 10.0:
+            os._exit(3)
+
+
 def main():
     payload = json.load(open(sys.argv[1]))
     res = []
+    threading.Thread(target=_watchdog, daemon=True).start()
     for case in payload["cases"]:
         try:
             c1 = NW.build(case["c1"])
@@ -114,7 +129,12 @@ def main():
         except BaseException as e:  # noqa
             res.append([dict(fn=o["fn"], exc="BUILD-" + type(e).__name__, exc_msg=str(e)[:200]) for o in case["ops"]])
             continue
-        res.append([run_op(op, c1, c2) for op in case["ops"]])
+        rr = []
+        for op in case["ops"]:
+            _progress["t"], _progress["budget"] = time.time(), float(op.get("timeout", 20))
+            rr.append(run_op(op, c1, c2))
+        _progress["t"], _progress["budget"] = time.time(), 60.0
+        res.append(rr)
     json.dump(dict(results=res), open(sys.argv[2], "w"))
 
 
